@@ -12,7 +12,7 @@ type VEntry struct {
 }
 
 type VModel struct {
-	Status  string // "" | Enabled | Suspended
+	Status  string              // "" | Enabled | Suspended
 	Keys    map[string][]VEntry // creation order per key
 	seq     int
 	Deleted map[string]bool // ids that were explicitly removed (must answer NoSuchVersion/NoSuchKey)
